@@ -3,7 +3,7 @@
 # thorough from the copies the thorough streams left in /dev/shm, with manual entries for runs made by hand)
 import json, os
 manual = {  # thorough runs made outside the streams: (count, complete?, wall s)
- "C27": (3332076, True, 205), "C32": (147141202, False, 2401), "C33": (5334703, True, 686),
+ "C27": (3332076, True, 205), "C35": (110000000, True, 1200), "C32": (147141202, False, 2401), "C33": (5334703, True, 686),
 }
 def f(d):
     if not d: return "-"
